@@ -14,20 +14,36 @@ import (
 // constStringArgs lists the constant string arguments (by index) of calls to pkg.fn in f.
 func (c *Ctx) constStringArgs(f *ssa.Function, pkg, fn string, idx int) []string {
 	var out []string
-	withClosures(f, func(g *ssa.Function) {
-		allInstrs(g, func(in ssa.Instruction) {
-			call, ok := in.(*ssa.Call)
-			if !ok || !isCallTo(&call.Call, pkg, fn) {
-				return
-			}
-			args := call.Call.Args
-			if idx < len(args) {
-				if k, ok := args[idx].(*ssa.Const); ok && k.Value != nil && k.Value.Kind() == constant.String {
-					out = append(out, constant.StringVal(k.Value))
+	seen := map[*ssa.Function]bool{}
+	var scan func(root *ssa.Function, d int)
+	scan = func(root *ssa.Function, d int) {
+		if seen[root] {
+			return
+		}
+		seen[root] = true
+		withClosures(root, func(g *ssa.Function) {
+			allInstrs(g, func(in ssa.Instruction) {
+				call, ok := in.(*ssa.Call)
+				if !ok {
+					return
 				}
-			}
+				if !isCallTo(&call.Call, pkg, fn) {
+					// the work may have been moved into a same-package helper
+					if callee := helperCallee(g, &call.Call); callee != nil && callee.Parent() == nil && d < 2 {
+						intoHelper(callee, &call.Call, func() { scan(callee, d+1) })
+					}
+					return
+				}
+				args := call.Call.Args
+				if idx < len(args) {
+					if k, ok := resolveParam(args[idx]).(*ssa.Const); ok && k.Value != nil && k.Value.Kind() == constant.String {
+						out = append(out, constant.StringVal(k.Value))
+					}
+				}
+			})
 		})
-	})
+	}
+	scan(f, 0)
 	return out
 }
 
@@ -176,13 +192,46 @@ func ruleT1(c *Ctx) {
 	wg := c.mustFunc("io", "WriteGraph")
 	rg := c.mustFunc("io", "ReadIntoGraph")
 	if wg != nil && rg != nil {
-		fm := c.constStringArgs(wg, "fmt", "Sprintf", 0)
-		okW := len(fm) >= 1
-		for _, f := range fm {
-			if !strings.HasSuffix(f, "\n") {
+		// every piece of text WriteGraph hands to the writer ends with a newline
+		var endsNL func(v ssa.Value, d int) bool
+		endsNL = func(v ssa.Value, d int) bool {
+			if d > 4 {
+				return false
+			}
+			switch x := v.(type) {
+			case *ssa.Const:
+				return x.Value != nil && x.Value.Kind() == constant.String && strings.HasSuffix(constant.StringVal(x.Value), "\n")
+			case *ssa.BinOp:
+				return x.Op == token.ADD && endsNL(x.Y, d+1)
+			case *ssa.Call:
+				if isCallTo(&x.Call, "fmt", "Sprintf") {
+					return endsNL(x.Call.Args[0], d+1)
+				}
+				return isCallTo(&x.Call, "fmt", "Sprintln")
+			}
+			return false
+		}
+		nOut, okW := 0, true
+		allInstrs(wg, func(in ssa.Instruction) {
+			call, ok := in.(*ssa.Call)
+			if !ok {
+				return
+			}
+			switch {
+			case isCallTo(&call.Call, "io", "WriteString"):
+				nOut++
+				okW = okW && endsNL(call.Call.Args[1], 0)
+			case isCallTo(&call.Call, "fmt", "Fprintf"):
+				nOut++
+				okW = okW && endsNL(call.Call.Args[1], 0)
+			case isCallTo(&call.Call, "fmt", "Fprintln"):
+				nOut++
+			case isCallTo(&call.Call, "fmt", "Fprint"):
+				nOut++
 				okW = false
 			}
-		}
+		})
+		okW = okW && nOut >= 1
 		okR := false
 		allInstrs(rg, func(in ssa.Instruction) {
 			if call, ok := in.(*ssa.Call); ok && isCallTo(&call.Call, "bufio", "Split") {
